@@ -69,7 +69,7 @@ def general_cases(tier, seed):
         for (N, P) in [(1, 4), (2, 2), (2, 3)]:
             for routing in T.ROUTINGS:
                 for kb in (0, 1, 4):
-                    sc = T.gen_scenario(rng, N * P, epochs=2, ops_per_rank=6, ttl=2, maxfan=2, hprog=20, hcb=5, sizes=(0, 100, 400, 900, 2000, 5000))
+                    sc = T.gen_scenario(rng, N * P, epochs=2, ops_per_rank=6, ttl=2, maxfan=2, hprog=20, hcb=5, sizes=(0, 100, 400, 900, 2000, 5000), other=rng.choice([0, 0, 0, 50]))
                     out.append((sc, T.Config(N, P, routing, kb, irecvs=rng.choice([1, 8]), isends_wait=rng.choice([0, 4]), issend=rng.choice([0, 8]),
                                              policy=rng.choice(T.POLICIES), eager=rng.choice([0, 50, 100]), sim_seed=rng.below(1 << 30))))
     return out
